@@ -249,8 +249,8 @@ def r5_comment_only(ctx):
         t = b.attrs['test']
         others = [x for x in t.nsucc() if x.kind == 'branch' and x is not b]
         for ob in others:
-            wit = graph.must_pass([ob], lambda x: x is rr.loop or x is rr.done_branch or x is rr.g.exit,
-                                  through=rr.skip_records, efilter=graph.normal_only)
+            _, wit = graph.env_search([ob], lambda x: x is rr.loop or x is rr.done_branch or x is rr.g.exit,
+                                      efilter=graph.normal_only, avoid=rr.skip_records)
             rep.ob('C02.R5', ctx.loc(rr.f, t.ast), 'not %s -> skip record' % ctx.src(t.ast), wit is None,
                    'the no-code branch passes a skip record before the next part' if wit is None else
                    'a part without code is dropped without being recorded as skipped',
